@@ -1,7 +1,7 @@
 """C11 — memory safety: valid calls stay inside their operands and invoke no UB; guards fire."""
 import engine, ops, vlib, corr, gen
 
-PROOFS = []
+PROOFS = ["Properties_C11"]
 OPS = [n for n, d in sorted(ops.CATALOG.items())]
 
 # ill-dimensioned calls to the checked public wrappers: (op, builder of args from dims)
